@@ -38,7 +38,10 @@ RULE = ("record level: REF of length 1..40 over ACGT (sometimes N / lower case),
         "loci with 2..4-allele tuples, rows with gaps and (rarely) out-of-range indices. Pipeline: assemble output of a synthetic "
         "data set (SNV-less, multi-allelic, reference-absent loci, one sample without reads) fed to call / call-exact. "
         "Non-trivial: record with >= 2 ALTs, >= 2 SNV columns and a column with >= 3 alleles; pipeline record with >= 1 ALT. "
-        "Distinct by canonical request line / (data set, program, record).")
+        "Distinct by canonical request line / (data set, program, record). WP3: records with 300 columns, >= 130 SNV columns and "
+        ">= 130 ALTs, columns with 5 symbols, every record also through use_snvpos=True (SNVPOS superset / '.'); pipeline with two "
+        "contigs, duplicated / overlapping targets, assemble --region, --report AFP, call / call-exact with --prior-frequencies AFP "
+        "and --filter-input-haplotypes AFP<op><x> (ALT = the haplotypes passing the filter), single-sample read-less loci (NOA).")
 
 ALPHA = "ACGT"
 
@@ -285,10 +288,12 @@ def pipeline_dataset(chk, r, S, work, d, reqs, expect):
                       "C12/pipeline/assemble-region-abort")
         return
     _, rrecs = S.parse_vcf_text(out)
+    # "contig:start-stop" is read as 0-based half-open by the code; 1-based inclusive would be a legitimate convention too
     ok = len(rrecs) == 1 and rrecs[0]["CHROM"] == c and \
-        rrecs[0]["REF"] == ds.contigs[c][rrecs[0]["POS"] - 1:rrecs[0]["POS"] - 1 + len(rrecs[0]["REF"])] and len(rrecs[0]["REF"]) == e - s_
+        rrecs[0]["REF"] == ds.contigs[c][rrecs[0]["POS"] - 1:rrecs[0]["POS"] - 1 + len(rrecs[0]["REF"])] and \
+        (rrecs[0]["POS"] - 1, len(rrecs[0]["REF"])) in ((s_, e - s_), (s_ - 1, e - s_ + 1))
     if not ok:
-        chk.violation("assemble --region did not print exactly one record whose REF is the reference sequence at its POS",
+        chk.violation("assemble --region did not print exactly one record covering the region whose REF is the reference sequence at its POS",
                       {**key0, "region": [c, s_, e], "records": [(x["CHROM"], x["POS"], x["REF"]) for x in rrecs]},
                       "C12/pipeline/assemble-region-record")
         return
